@@ -767,3 +767,15 @@ package server
 //@   ensures [new-member-starts-unreplicated] result == nil ==> (rep in p.isr) && p.isr[rep] != nil && p.isr[rep].offset == -1
 //@   ensures [only-a-replica] result == nil ==> ghost.isReplica
 //@   ghost after call inReplicas: ghost.isReplica := ret0
+
+// a stream created by a (replayed) create operation is built from that operation alone: a new object, never the
+// left-over of a deleted stream of the same name (C06: replay never brings back state of a deleted stream)
+//@ globalinv ErrStreamExists serves C06: ErrStreamExists != nil
+//@ func newStream serves C06
+//@   ensures result != nil && fresh(result)
+//@ func (*metadataAPI).addStreamLocked serves C06
+//@   returns (st, replaced, err)
+//@   requires m != nil && protoStream != nil
+//@   assumes forall j int :: 0 <= j && j < len(protoStream.Partitions) ==> protoStream.Partitions[j] != nil
+//@   ensures [built-from-the-operation-alone] err == nil ==> st != nil && fresh(st)
+//@   loop 1 invariant stream != nil && fresh(stream) && (forall j int :: 0 <= j && j < len(protoStream.Partitions) ==> protoStream.Partitions[j] != nil)
